@@ -514,7 +514,7 @@ func determinismHistory(run *ev.Run, c int, tmp string) {
 	}
 	// R2: on-disk DB, application closed and reopened at block boundaries, and several times across process exit
 	// (a new process has lost every package variable and cache; the DB is all it has)
-	every := tierN(run.Tier, 7, 1)
+	every := 1 // a restart after every block (cheap next to the straddle cases, which wait for wall-clock time)
 	dbdir := filepath.Join(tmp, "db")
 	segments := tierN(run.Tier, 6, 16)
 	r2 := &execObs{Kind: "restart"}
